@@ -365,6 +365,12 @@ def run(ctx):
     if not ctx.replay:
         res = paged_delete_check(ctx)
         ctx.coverage["paged_listings_across_a_delete"], ctx.coverage["paged_listings_incomplete"] = res
+        # "regardless of push order" also when two artifact requests for one subject overlap: one of them stands still before each
+        # of its store actions while the other runs; afterwards the listing is that of one of the two orders (shared with C11)
+        import c11
+        res = c11.hooked_pairs_check(ctx, only=["delete-artifact/push-artifact", "push-artifact/push-artifact", "push-artifact/delete-artifact",
+                                                "list-referrers/delete-sibling-artifact", "list-referrers/push-artifact"], pid="C07")
+        ctx.coverage["overlapping_artifact_request_pairs"], ctx.coverage["pairs_not_serializable"] = res
 
 
 def run_main(ctx):
